@@ -195,6 +195,7 @@ def eval_program(module, fname, inputs, want=("ref", "model", "irrun", "wf", "op
                 mr.append(observe(s, v, g, f.ret, module, a, f.params) if s == 'ok' else (s, v))
             obs["model_vm"] = mo
             obs["model_ref"] = mr
+            rec["domain"] = d.ask("domain")          # which theorem domains (ScalarCore / StorageCore / NoShadow) the module lies in
             if "struct" in want and c0[0] == 'ok':
                 try:
                     mi = canon_ir(d.ask("lower"))
@@ -218,6 +219,7 @@ def eval_program(module, fname, inputs, want=("ref", "model", "irrun", "wf", "op
                 continue
             if "wf" in want:
                 rec["wf" + tag] = d.ask("wf")
+                rec["wfchecks" + tag] = d.ask("wfchecks")
             if "irrun" in want:
                 mo = []
                 for args, gl in inputs:
